@@ -24,6 +24,7 @@ import (
 	"log"
 	"os"
 	"path/filepath"
+	"sort"
 	"strings"
 
 	"github.com/pkg/errors"
@@ -170,7 +171,15 @@ func LoadFiles(files []*BufferedFile) (*chart.Chart, error) {
 		return c, err
 	}
 
-	for n, files := range subcharts {
+	// Add the subcharts in name order, not in map iteration order: the order of
+	// the dependencies is visible (e.g. in the order of the CRDs of a chart).
+	names := make([]string, 0, len(subcharts))
+	for n := range subcharts {
+		names = append(names, n)
+	}
+	sort.Strings(names)
+	for _, n := range names {
+		files := subcharts[n]
 		var sc *chart.Chart
 		var err error
 		switch {
